@@ -50,6 +50,11 @@ class Fwd:
                 cur = env.get(st.target.id, ast.Name(id=st.target.id, ctx=ast.Load()))
                 env[st.target.id] = ast.BinOp(left=cur, op=st.op, right=subst_expr(st.value, env))
                 continue
+            if isinstance(st, ast.AugAssign):
+                # update of an attribute / item (a counter, ...): an effect, not a value of the normal form
+                self.effects.append((list(conds), "%s %s= %s" % (canon(subst_expr(st.target, env)), type(st.op).__name__,
+                                                                  canon(subst_expr(st.value, env)))))
+                continue
             if isinstance(st, ast.If):
                 test = subst_expr(st.test, env)
                 # path conditions are recorded as normalised literals (text, polarity): `x is not None`
